@@ -16,7 +16,8 @@ func init() {
 		Title: "Replies propagate only good contacts, nearest buckets first, right family",
 		Decided: "C09.1 the target handed to the table walk is args.target for find_node and get, args.info_hash for get_peers (traced through the helper chain per method); " +
 			"C09.2 nodes/nodes6 are assigned only from the good-node selection whose filter implies IsGood, IsGood implies not-bad ∧ has-responded, not-bad implies ≠ own ID, and lastGotResponse is set only on a matched response; " +
-			"C09.3 at most K=8 entries (constant at the call, truncation in the table walk); C09.4 nodes only under wants-IPv4 and only IPv4 contacts, nodes6 only under wants-IPv6 and only non-IPv4 contacts.",
+			"C09.3 at most K=8 entries (constant at the call, truncation in the table walk); C09.4 nodes only under wants-IPv4 and only IPv4 contacts, nodes6 only under wants-IPv6 and only non-IPv4 contacts; C09.6 the family wanted is the explicit want list, else the requester's family by To4; " +
+			"C09.7 the bucket walk starts at bucketIndex(target) (the last bucket for the root ID itself), steps to index-1, and leaves the loop only under index < 0 or ¬(len < k), ranging over the whole bucket each round; C09.8 the slices stored in Return.Nodes / Nodes6 are freshly built (no field or parameter among their origins).",
 		NotDecided: "that walking towards bucket 0 visits contacts in non-increasing closeness (a metric fact, C18), ordering inside one bucket, goodness over time.",
 		Rules: []*Rule{
 			{ID: "C09.1", Doc: "target field per method", Floor: 3, Run: c09r1},
